@@ -33,6 +33,9 @@ pub struct AMember {
 	pub inv: Vec<AAnn>, pub vis: Vec<AAnn>,
 	/// fields: ConstantValue; methods: a body `bipush n; return`-ish (None = no Code)
 	pub payload: Option<i8>,
+	/// fields the merge only copies, 0 = absent, 1 / 2 = two different values: [exceptions, signature,
+	/// annotation_default, method_parameters, unknown attribute] (fields use signature and attribute only)
+	pub opq: [u8; 5],
 }
 
 #[derive(Clone, Debug, PartialEq)]
@@ -46,7 +49,11 @@ pub struct AClass {
 	pub source_file: Option<String>,
 	/// attributes unknown to the JVMS: (name, seed, length) — the content is `noise(seed, length)`
 	pub attrs: Vec<(String, u64, usize)>,
+	/// fields the merge only copies, 0 = absent, 1 / 2 = two different values: [enclosing_method, signature,
+	/// source_debug_extension, module_packages, module_main_class, nest_host_class, nest_members]
+	pub opq: [u8; 7],
 }
+fn pick2(k: u8, a: &str, b: &str) -> Option<String> { match k { 1 => Some(a.to_owned()), 2 => Some(b.to_owned()), _ => None } }
 
 /// xorshift64*: bytes DEFLATE cannot compress; a deterministic function of (seed, len)
 pub fn noise(seed: u64, len: usize) -> Vec<u8> {
@@ -89,6 +96,8 @@ pub fn field_to_duke(m: &AMember) -> Field {
 	f.constant_value = m.payload.map(|v| ConstantValue::Integer(v as i32));
 	f.runtime_invisible_annotations = m.inv.iter().map(ann_to_duke).collect();
 	f.runtime_visible_annotations = m.vis.iter().map(ann_to_duke).collect();
+	f.signature = pick2(m.opq[1], "TT;", "Ljava/util/List<TT;>;").map(|s| duke::tree::field::FieldSignature::try_from(js(&s)).expect("field signature"));
+	if let Some(n) = pick2(m.opq[4], "FA", "FB") { f.attributes.push(duke::tree::attribute::Attribute { name: js(&n), bytes: vec![1, 2, 3] }); }
 	f
 }
 pub fn method_to_duke(m: &AMember) -> Method {
@@ -106,6 +115,11 @@ pub fn method_to_duke(m: &AMember) -> Method {
 	});
 	f.runtime_invisible_annotations = m.inv.iter().map(ann_to_duke).collect();
 	f.runtime_visible_annotations = m.vis.iter().map(ann_to_duke).collect();
+	f.exceptions = pick2(m.opq[0], "java/lang/Exception", "java/io/IOException").map(|s| vec![cn(&s)]);
+	f.signature = pick2(m.opq[1], "<T:Ljava/lang/Object;>()V", "<U:Ljava/lang/Object;>()V").map(|s| duke::tree::method::MethodSignature::try_from(js(&s)).expect("method signature"));
+	f.annotation_default = pick2(m.opq[2], "a", "b").map(|s| ElementValue::Enum { type_name: fd("Lann/E;"), const_name: js(&s) });
+	f.method_parameters = pick2(m.opq[3], "p", "q").map(|s| vec![duke::tree::method::MethodParameter { name: Some(duke::tree::method::ParameterName::try_from(js(&s)).expect("parameter name")), flags: duke::tree::method::ParameterFlags::from(0x0010) }]);
+	if let Some(n) = pick2(m.opq[4], "MA", "MB") { f.attributes.push(duke::tree::attribute::Attribute { name: js(&n), bytes: vec![4, 5] }); }
 	f
 }
 
@@ -123,12 +137,42 @@ pub fn to_duke(c: &AClass) -> ClassFile {
 	k.record_components = c.records.iter().map(|n| RecordComponent::new(RecordName::try_from(js(n)).expect("record name"), fd("I"))).collect();
 	k.source_file = c.source_file.as_deref().map(js);
 	k.attributes = c.attrs.iter().map(|(n, seed, len)| duke::tree::attribute::Attribute { name: js(n), bytes: noise(*seed, *len) }).collect();
+	k.enclosing_method = pick2(c.opq[0], "net/minecraft/Outer", "net/minecraft/Other").map(|n| duke::tree::class::EnclosingMethod { class: cn(&n), method: None });
+	k.signature = pick2(c.opq[1], "Ljava/lang/Object;", "<T:Ljava/lang/Object;>Ljava/lang/Object;").map(|s| duke::tree::class::ClassSignature::try_from(js(&s)).expect("class signature"));
+	k.source_debug_extension = pick2(c.opq[2], "SMAP a", "SMAP b").map(|s| js(&s));
+	k.module_packages = pick2(c.opq[3], "p/a", "p/b").map(|s| vec![duke::tree::module::PackageName::try_from(js(&s)).expect("package name")]);
+	k.module_main_class = pick2(c.opq[4], "p/Main", "p/Main2").map(|s| cn(&s));
+	k.nest_host_class = pick2(c.opq[5], "net/minecraft/Host", "net/minecraft/Host2").map(|s| cn(&s));
+	k.nest_members = pick2(c.opq[6], "net/minecraft/M1", "net/minecraft/M2").map(|s| vec![cn(&s)]);
 	k
 }
 
+/// duke writes the class and reads the very same tree back (a class it cannot carry through its own writer
+/// and reader is C01/C02's business: the generators fall back to a plainer class)
+pub fn roundtrips(c: &AClass) -> bool {
+	let k = to_duke(c);
+	let r = fbh::report::guarded(std::panic::AssertUnwindSafe(|| {
+		let mut b = Vec::new();
+		duke::write_class(&mut b, &k).ok()?;
+		duke::read_class(&mut std::io::Cursor::new(b)).ok()
+	}));
+	matches!(r, Ok(Some(t)) if t == k)
+}
+
 // ---------------------------------------------------------------- projection onto the model
-#[derive(Default)]
 pub struct Interner { map: HashMap<Vec<u8>, u64> }
+/// "None" is always 1 and "[]" always 2, so that the opaque components of a plain member / class are the
+/// same lists in every case (printed by name: dF, dM, dC of coq/C13/Run.v — numerals are what coqc spends
+/// its time on)
+impl Default for Interner {
+	fn default() -> Interner { let mut it = Interner { map: HashMap::new() }; it.id(b"None"); it.id(b"[]"); it }
+}
+const D_FIELD: [u64; 6] = [1, 1, 2, 2, 2, 2];
+const D_METHOD: [u64; 9] = [1, 1, 1, 2, 2, 2, 1, 1, 2];
+const D_CLASS: [u64; 12] = [1, 1, 1, 1, 2, 2, 1, 1, 1, 1, 1, 2];
+fn g_rest(r: &[u64]) -> String {
+	if r == D_FIELD { "dF".to_owned() } else if r == D_METHOD { "dM".to_owned() } else if r == D_CLASS { "dC".to_owned() } else { gnums(r.iter().copied()) }
+}
 impl Interner {
 	/// identity of a byte string / text: equal ids iff equal contents; ids start at 1
 	pub fn id(&mut self, b: &[u8]) -> u64 { let n = self.map.len() as u64 + 1; *self.map.entry(b.to_vec()).or_insert(n) }
@@ -138,12 +182,12 @@ impl Interner {
 #[derive(Clone, Debug, PartialEq)]
 pub enum PAnn { Env(Side), Itfs(Vec<(Side, Vec<u32>)>), Other(u64) }
 #[derive(Clone, Debug, PartialEq)]
-pub struct PMember { pub name: Vec<u32>, pub desc: Vec<u32>, pub access: u64, pub depr: bool, pub synth: bool, pub inv: Vec<PAnn>, pub rest: u64 }
+pub struct PMember { pub name: Vec<u32>, pub desc: Vec<u32>, pub access: u64, pub depr: bool, pub synth: bool, pub inv: Vec<PAnn>, /** one interned identity per field of REST_FIELD / REST_METHOD */ pub rest: Vec<u64> }
 #[derive(Clone, Debug, PartialEq)]
 pub struct PClass {
 	pub version: u64, pub access: u64, pub name: Vec<u32>, pub sup: Option<Vec<u32>>, pub itfs: Vec<Vec<u32>>,
 	pub fields: Vec<PMember>, pub methods: Vec<PMember>, pub depr: bool, pub synth: bool,
-	pub inner: Option<Vec<(Vec<u32>, u64)>>, pub vis: Vec<PAnn>, pub inv: Vec<PAnn>, pub perm: Option<Vec<Vec<u32>>>, pub rec: u64, pub rest: u64,
+	pub inner: Option<Vec<(Vec<u32>, u64)>>, pub vis: Vec<PAnn>, pub inv: Vec<PAnn>, pub perm: Option<Vec<Vec<u32>>>, pub rec: u64, /** one interned identity per field of REST_CLASS */ pub rest: Vec<u64>,
 }
 impl PMember { pub fn key(&self) -> (Vec<u32>, Vec<u32>) { (self.name.clone(), self.desc.clone()) } }
 
@@ -182,17 +226,31 @@ pub fn proj_ann(a: &Annotation, it: &mut Interner) -> PAnn {
 	PAnn::Other(it.text(format!("{a:?}")))
 }
 
+/// The fields of duke's Field / Method / ClassFile that the model keeps opaque, in the order the model's
+/// tables list them (coq/C13/Model.v field_rest_table …, regenerated from merge.rs; the CLayout case
+/// compares these names with the tables).  The projections below destructure the structs WITHOUT `..`:
+/// a field added to duke's tree does not compile here until it is given a place.
+pub const REST_FIELD: [&str; 6] = ["constant_value", "signature", "runtime_visible_annotations", "runtime_visible_type_annotations", "runtime_invisible_type_annotations", "attributes"];
+pub const REST_METHOD: [&str; 9] = ["code", "exceptions", "signature", "runtime_visible_annotations", "runtime_visible_type_annotations", "runtime_invisible_type_annotations", "annotation_default", "method_parameters", "attributes"];
+pub const REST_CLASS: [&str; 12] = ["enclosing_method", "signature", "source_file", "source_debug_extension", "runtime_visible_type_annotations", "runtime_invisible_type_annotations",
+	"module", "module_packages", "module_main_class", "nest_host_class", "nest_members", "attributes"];
+
 pub fn proj_field(f: &Field, it: &mut Interner) -> PMember {
-	let mut rest = f.clone();
-	rest.access = FieldAccess::from(0); rest.has_deprecated_attribute = false; rest.has_synthetic_attribute = false; rest.runtime_invisible_annotations = vec![];
-	PMember { name: cps(f.name.as_inner()), desc: cps(f.descriptor.as_inner()), access: u16::from(f.access) as u64, depr: f.has_deprecated_attribute, synth: f.has_synthetic_attribute,
-		inv: f.runtime_invisible_annotations.iter().map(|a| proj_ann(a, it)).collect(), rest: it.text(format!("{rest:?}")) }
+	let Field { access, name, descriptor, has_deprecated_attribute, has_synthetic_attribute, constant_value, signature, runtime_visible_annotations, runtime_invisible_annotations,
+		runtime_visible_type_annotations, runtime_invisible_type_annotations, attributes } = f;
+	let rest = vec![it.text(format!("{constant_value:?}")), it.text(format!("{signature:?}")), it.text(format!("{runtime_visible_annotations:?}")),
+		it.text(format!("{runtime_visible_type_annotations:?}")), it.text(format!("{runtime_invisible_type_annotations:?}")), it.text(format!("{attributes:?}"))];
+	PMember { name: cps(name.as_inner()), desc: cps(descriptor.as_inner()), access: u16::from(*access) as u64, depr: *has_deprecated_attribute, synth: *has_synthetic_attribute,
+		inv: runtime_invisible_annotations.iter().map(|a| proj_ann(a, it)).collect(), rest }
 }
 pub fn proj_method(f: &Method, it: &mut Interner) -> PMember {
-	let mut rest = f.clone();
-	rest.access = MethodAccess::from(0); rest.has_deprecated_attribute = false; rest.has_synthetic_attribute = false; rest.runtime_invisible_annotations = vec![];
-	PMember { name: cps(f.name.as_inner()), desc: cps(f.descriptor.as_inner()), access: u16::from(f.access) as u64, depr: f.has_deprecated_attribute, synth: f.has_synthetic_attribute,
-		inv: f.runtime_invisible_annotations.iter().map(|a| proj_ann(a, it)).collect(), rest: it.text(format!("{rest:?}")) }
+	let Method { access, name, descriptor, has_deprecated_attribute, has_synthetic_attribute, code, exceptions, signature, runtime_visible_annotations, runtime_invisible_annotations,
+		runtime_visible_type_annotations, runtime_invisible_type_annotations, annotation_default, method_parameters, attributes } = f;
+	let rest = vec![it.text(format!("{code:?}")), it.text(format!("{exceptions:?}")), it.text(format!("{signature:?}")), it.text(format!("{runtime_visible_annotations:?}")),
+		it.text(format!("{runtime_visible_type_annotations:?}")), it.text(format!("{runtime_invisible_type_annotations:?}")), it.text(format!("{annotation_default:?}")),
+		it.text(format!("{method_parameters:?}")), it.text(format!("{attributes:?}"))];
+	PMember { name: cps(name.as_inner()), desc: cps(descriptor.as_inner()), access: u16::from(*access) as u64, depr: *has_deprecated_attribute, synth: *has_synthetic_attribute,
+		inv: runtime_invisible_annotations.iter().map(|a| proj_ann(a, it)).collect(), rest }
 }
 
 /// major * 65536 + minor.  Version's numbers are crate-private: they are read off the header of a
@@ -211,24 +269,28 @@ fn version_number(v: &Version) -> u64 {
 }
 
 pub fn project(c: &ClassFile, it: &mut Interner) -> PClass {
-	let mut rest = c.clone();
-	rest.version = Version::V1_1; rest.access = ClassAccess::from(0); rest.name = ocn("X"); rest.super_class = None; rest.interfaces = vec![];
-	rest.fields = vec![]; rest.methods = vec![]; rest.has_deprecated_attribute = false; rest.has_synthetic_attribute = false; rest.inner_classes = None;
-	rest.runtime_visible_annotations = vec![]; rest.runtime_invisible_annotations = vec![]; rest.permitted_subclasses = None; rest.record_components = vec![];
+	let ClassFile { version, access, name, super_class, interfaces, fields, methods, has_deprecated_attribute, has_synthetic_attribute, inner_classes,
+		enclosing_method, signature, source_file, source_debug_extension, runtime_visible_annotations, runtime_invisible_annotations,
+		runtime_visible_type_annotations, runtime_invisible_type_annotations, module, module_packages, module_main_class, nest_host_class, nest_members,
+		permitted_subclasses, record_components, attributes } = c;
+	let rest = vec![it.text(format!("{enclosing_method:?}")), it.text(format!("{signature:?}")), it.text(format!("{source_file:?}")), it.text(format!("{source_debug_extension:?}")),
+		it.text(format!("{runtime_visible_type_annotations:?}")), it.text(format!("{runtime_invisible_type_annotations:?}")),
+		it.text(format!("{module:?}")), it.text(format!("{module_packages:?}")), it.text(format!("{module_main_class:?}")),
+		it.text(format!("{nest_host_class:?}")), it.text(format!("{nest_members:?}")), it.text(format!("{attributes:?}"))];
 	PClass {
-		version: version_number(&c.version), access: u16::from(c.access) as u64, name: cps(c.name.as_inner()), sup: c.super_class.as_ref().map(|s| cps(s.as_inner())),
-		itfs: c.interfaces.iter().map(|i| cps(i.as_inner())).collect(),
-		fields: c.fields.iter().map(|f| proj_field(f, it)).collect(), methods: c.methods.iter().map(|m| proj_method(m, it)).collect(),
-		depr: c.has_deprecated_attribute, synth: c.has_synthetic_attribute,
-		inner: c.inner_classes.as_ref().map(|l| l.iter().map(|i| {
+		version: version_number(version), access: u16::from(*access) as u64, name: cps(name.as_inner()), sup: super_class.as_ref().map(|s| cps(s.as_inner())),
+		itfs: interfaces.iter().map(|i| cps(i.as_inner())).collect(),
+		fields: fields.iter().map(|f| proj_field(f, it)).collect(), methods: methods.iter().map(|m| proj_method(m, it)).collect(),
+		depr: *has_deprecated_attribute, synth: *has_synthetic_attribute,
+		inner: inner_classes.as_ref().map(|l| l.iter().map(|i| {
 			let mut r = i.clone(); r.inner_class = cn("X");
 			(cps(i.inner_class.as_inner()), it.text(format!("{r:?}")))
 		}).collect()),
-		vis: c.runtime_visible_annotations.iter().map(|a| proj_ann(a, it)).collect(),
-		inv: c.runtime_invisible_annotations.iter().map(|a| proj_ann(a, it)).collect(),
-		perm: c.permitted_subclasses.as_ref().map(|p| p.iter().map(|n| cps(n.as_inner())).collect()),
-		rec: if c.record_components.is_empty() { 0 } else { it.text(format!("{:?}", c.record_components)) },
-		rest: it.text(format!("{rest:?}")),
+		vis: runtime_visible_annotations.iter().map(|a| proj_ann(a, it)).collect(),
+		inv: runtime_invisible_annotations.iter().map(|a| proj_ann(a, it)).collect(),
+		perm: permitted_subclasses.as_ref().map(|p| p.iter().map(|n| cps(n.as_inner())).collect()),
+		rec: if record_components.is_empty() { 0 } else { it.text(format!("{record_components:?}")) },
+		rest,
 	}
 }
 
@@ -241,11 +303,11 @@ pub fn g_ann(a: &PAnn) -> String {
 	}
 }
 pub fn g_member(m: &PMember) -> String {
-	format!("mkMember {} {} {} {} {} {} {}", gstr(&m.name), gstr(&m.desc), m.access, gbool(m.depr), gbool(m.synth), glist(m.inv.iter().map(g_ann)), m.rest)
+	format!("mkMember {} {} {} {} {} {} {}", gstr(&m.name), gstr(&m.desc), m.access, gbool(m.depr), gbool(m.synth), glist(m.inv.iter().map(g_ann)), g_rest(&m.rest))
 }
 pub fn g_class(c: &PClass) -> String {
 	format!("(mkClass {} {} {} {} {} {} {} {} {} {} {} {} {} {} {})", c.version, c.access, gstr(&c.name), gopt(c.sup.as_ref().map(|s| gstr(s))),
 		glist(c.itfs.iter().map(|i| gstr(i))), glist(c.fields.iter().map(g_member)), glist(c.methods.iter().map(g_member)), gbool(c.depr), gbool(c.synth),
 		gopt(c.inner.as_ref().map(|l| glist(l.iter().map(|(n, r)| gpair(gstr(n), r.to_string()))))),
-		glist(c.vis.iter().map(g_ann)), glist(c.inv.iter().map(g_ann)), gopt(c.perm.as_ref().map(|l| glist(l.iter().map(|n| gstr(n))))), c.rec, c.rest)
+		glist(c.vis.iter().map(g_ann)), glist(c.inv.iter().map(g_ann)), gopt(c.perm.as_ref().map(|l| glist(l.iter().map(|n| gstr(n))))), c.rec, g_rest(&c.rest))
 }
